@@ -125,7 +125,7 @@ def run(ctx):
         ks = [o[0] for o in c["ops"]]
         return c["id"] if len(set(ks)) < len(ks) or any(e.get("len", 0) > 1 for e in tr[1:]) else None
     failing = core.judge_traces(ctx, "harness.checks.c11", cases, "Trace_C11", _cfg(1, 1, False, spec="TrSpec"), describe, env=ENV,
-                                nontrivial=nontrivial, shard=1500, chunk=20, heap="2g")
+                                nontrivial=nontrivial, shard=ctx.pick(1500, 500), chunk=20, heap=ctx.pick("2g", "3g"))
     ctx.exhaustive = not ctx.quick
     ctx.rule = ("histories: edge cover of the complete reachable graph of C11.tla (8-URL universe over a co.uk host chain, 2 values, both suffix modes) "
                 "replayed on LRUTrie with set / set_lru(str) / set_lru(stems) rotating; TLC RandomSubset histories over a ~60-URL slice (every URL with all its trailing-slash / query / fragment variants, raw paths with empty inner segments); "
